@@ -16,7 +16,18 @@ func buildAny(d Dist, t ScalarType) (any, error) {
 	if f == nil {
 		return nil, fmt.Errorf("harness: unknown family %q", d.Fam)
 	}
-	return f.build(d, t)
+	// a nested instance: its constructor arguments are not arguments of the outer constructor
+	if arec != nil {
+		arec.depth++
+	}
+	o, err := f.build(d, t)
+	if arec != nil {
+		arec.depth--
+		if arec.depth == 0 && err == nil && o != nil {
+			arec.nested = append(arec.nested, nestedObj{obj: o, d: d})
+		}
+	}
+	return o, err
 }
 
 func buildScalar(d Dist, t ScalarType) (st.ScalarPdf, error) {
@@ -40,9 +51,22 @@ func W(fam string, p []float64, sub ...Dist) Dist {
 	return Dist{Fam: fam, P: fs(p...), Sub: sub}
 }
 
-func vecOf(t ScalarType, v []float64) Vector { return AsDenseVector(t, NewDenseFloat64Vector(v)) }
+// vecOf / matOf / argS build the Scalar, Vector and Matrix arguments of every constructor call of
+// the harness; while an argument recorder is active (alias.go) the objects are remembered.
+func vecOf(t ScalarType, v []float64) Vector {
+	r := AsDenseVector(recType(t), NewDenseFloat64Vector(v))
+	recordArg(&argObj{kind: "Vector", v: r, cols: 1, handed: append([]float64{}, v...)})
+	return r
+}
 func matOf(t ScalarType, v []float64, n, m int) Matrix {
-	return AsDenseMatrix(t, NewDenseFloat64Matrix(v, n, m))
+	r := AsDenseMatrix(recType(t), NewDenseFloat64Matrix(v, n, m))
+	recordArg(&argObj{kind: "Matrix", m: r, cols: m, handed: append([]float64{}, v...)})
+	return r
+}
+func argS(t ScalarType, v float64) Scalar {
+	r := NewScalar(recType(t), v)
+	recordArg(&argObj{kind: "Scalar", s: r, cols: 1, handed: []float64{v}})
+	return r
 }
 
 // ---- small dense helpers for the reference side (d <= 2) ------------------------
@@ -225,7 +249,7 @@ func fewPoints(d Dist) []float64 {
 }
 
 func init() {
-	S := func(t ScalarType, v float64) Scalar { return NewScalar(t, v) }
+	S := argS // constructor arguments are created through the argument recorder (alias.go)
 	N01 := D("normal", 0, 1)
 	N32 := D("normal", 3, 0.5)
 	G21 := D("gamma", 2, 1)
